@@ -1,0 +1,230 @@
+//go:build verif && !tinywasm
+
+package gtree
+
+// Contracts for the massive mode (pipeline_tree*.go, root_generator.go: rootGeneratorPipeline, input_spliter.go), read
+// by /verif/gvc. The model is sequential and per goroutine (see /verif/gvc/channels.go and DESIGN.md): every goroutine
+// body (a worker method or the function literal of a go statement) is verified as an ordinary procedure; channels
+// carry protocols (what may be sent is what a receiver may assume); a go statement checks the precondition of the
+// goroutine body and the protocols of the channels handed over, and what the goroutine may modify must be within the
+// spawner's own modifies clause. What is decided here: no goroutine of the massive mode dereferences nil or indexes out
+// of range for any message the protocols allow (C12); every root that reaches a mkdir / verify stage, or the dry-run
+// spreader, comes from a grower with validation enabled (C07, C09); a dry-run call has no file-system operation in its
+// frame (C09); the encoded spreaders create one encoder per run (C04). What is NOT decided: anything about
+// interleavings, blocking, cancellation, leaks, races (C10, C11), which error a massive-mode call returns, nor any
+// functional statement about its output.
+
+// ---- channel protocols
+//@ channel blockChan(b)
+
+//@ channel rootChan(n)
+//@   requires nonnil [C12]: n != nil && n.hierarchy == 1
+
+// g: the grower whose workers send on the channel (nil: the no-op grower, nothing is grown or validated)
+//@ channel grownChan(n)
+//@   subject g *defaultGrowerSimple
+//@   requires nonnil [C12]: n != nil && n.hierarchy == 1
+//@   requires grown [C01]: g != nil ==> grown(g.lastNodeFormat, g.intermedialNodeFormat, n)
+//@   requires valid [C07,C09]: g != nil && g.enabledValidation ==> validated(n)
+
+//@ channel errChan(e)
+//@   requires err [C14]: e != nil
+
+// ---- splitter (input_spliter.go)
+//@ func gtree.split
+//@   requires nn: ctx != nil
+//@   carries blockc: blockChan
+//@   carries errc: errChan
+//@   carries result0: blockChan
+//@   carries result1: errChan
+//@   modifies bufio.Scanner.pos, bufio.Scanner.failed
+//@ closure gtree.split#1
+//@   requires nn: ctx != nil && sc != nil && 0 <= sc.pos && sc.pos <= len(sc.lines)
+//@   modifies bufio.Scanner.pos, bufio.Scanner.failed
+//@ loop gtree.split#1#1
+//@   invariant rng: 0 <= sc.pos && sc.pos <= len(sc.lines)
+
+// ---- generator stage (root_generator.go)
+//@ func gtree.newRootGeneratorPipeline
+//@   ensures fresh: fresh(result) && result.nodeGenerator != nil && result.nodeGenerator.parser != nil && md.parserOK(result.nodeGenerator.parser)
+//@ func gtree.rootGeneratorPipeline.generate
+//@   requires nn: rg != nil && rg.nodeGenerator != nil && rg.nodeGenerator.parser != nil && md.parserOK(rg.nodeGenerator.parser) && ctx != nil
+//@   carries blocks: blockChan
+//@   carries rootc: rootChan
+//@   carries errc: errChan
+//@   carries result0: rootChan
+//@   carries result1: errChan
+//@   modifies Node.children, Node.parent, list.List.view, list.Element.backOf, counter.n, bufio.Scanner.pos, bufio.Scanner.failed, markdown.Parser.isSharpRoot, markdown.Parser.spaces, markdown.Parser.sep
+//@ closure gtree.rootGeneratorPipeline.generate#1
+//@   requires nn: rg != nil && rg.nodeGenerator != nil && rg.nodeGenerator.parser != nil && md.parserOK(rg.nodeGenerator.parser) && ctx != nil
+//@   modifies Node.children, Node.parent, list.List.view, list.Element.backOf, counter.n, bufio.Scanner.pos, bufio.Scanner.failed, markdown.Parser.isSharpRoot, markdown.Parser.spaces, markdown.Parser.sep
+//@ loop gtree.rootGeneratorPipeline.generate#1#1
+//@   invariant parser: md.parserOK(rg.nodeGenerator.parser)
+//@ func gtree.rootGeneratorPipeline.worker
+//@   requires nn: rg != nil && rg.nodeGenerator != nil && rg.nodeGenerator.parser != nil && ctx != nil && wg != nil
+//@   rely parser: md.parserOK(rg.nodeGenerator.parser)
+//@   carries blocks: blockChan
+//@   carries rootc: rootChan
+//@   carries errc: errChan
+//@   modifies Node.children, Node.parent, list.List.view, list.Element.backOf, counter.n, bufio.Scanner.pos, bufio.Scanner.failed, markdown.Parser.isSharpRoot, markdown.Parser.spaces, markdown.Parser.sep
+//@ loop gtree.rootGeneratorPipeline.worker#1
+//@   invariant ok: md.parserOK(rg.nodeGenerator.parser)
+//@ loop gtree.rootGeneratorPipeline.worker#2
+//@   invariant ok: md.parserOK(rg.nodeGenerator.parser) && sc != nil && 0 <= sc.pos && sc.pos <= len(sc.lines) && counter != nil
+//@   invariant root [C12]: root != nil ==> root.hierarchy == 1
+//@   invariant stack [C12]: stackOK(nodes)
+
+// ---- grower stage (pipeline_tree_grower.go)
+//@ func gtree.defaultGrowerPipeline.grow
+//@   requires nn: dg != nil && dg.defaultGrowerSimple != nil && ctx != nil
+//@   carries roots: rootChan
+//@   carries nodes: grownChan(dg.defaultGrowerSimple)
+//@   carries errc: errChan
+//@   carries result0: grownChan(dg.defaultGrowerSimple)
+//@   carries result1: errChan
+//@   modifies Node.brnch.value, Node.brnch.path
+//@ closure gtree.defaultGrowerPipeline.grow#1
+//@   requires nn: dg != nil && dg.defaultGrowerSimple != nil && ctx != nil
+//@   modifies Node.brnch.value, Node.brnch.path
+//@ func gtree.defaultGrowerPipeline.worker
+//@   requires nn: dg != nil && dg.defaultGrowerSimple != nil && ctx != nil && wg != nil
+//@   carries roots: rootChan
+//@   carries nodes: grownChan(dg.defaultGrowerSimple)
+//@   carries errc: errChan
+//@   modifies Node.brnch.value, Node.brnch.path
+//@ func gtree.nopGrowerPipeline.grow
+//@   requires nn: ctx != nil
+//@   carries roots: rootChan
+//@   carries nodes: grownChan(nil)
+//@   carries errc: errChan
+//@   carries result0: grownChan(nil)
+//@   carries result1: errChan
+//@ closure gtree.nopGrowerPipeline.grow#1
+//@   requires nn: ctx != nil
+
+// ---- spreader stage (pipeline_tree_spreader.go)
+// text: the workers print one root at a time (the lock is not modelled); the writer error of spreadBranch is dropped by
+// the worker (not claimed: C14 is stated for the simple mode)
+//@ func gtree.defaultSpreaderPipeline.spread
+//@   requires nn: ds != nil && ds.defaultSpreaderSimple != nil && ctx != nil
+//@   carries roots: grownChan($g)
+//@   carries errc: errChan
+//@   carries result0: errChan
+//@   modifies out, wfail, defaultSpreaderSimple.w
+//@ closure gtree.defaultSpreaderPipeline.spread#1
+//@   requires nn: ds != nil && ds.defaultSpreaderSimple != nil && ctx != nil
+//@   modifies out, wfail, defaultSpreaderSimple.w
+//@ func gtree.defaultSpreaderPipeline.worker
+//@   requires nn: ds != nil && ds.defaultSpreaderSimple != nil && ctx != nil && wg != nil
+//@   carries roots: grownChan($g)
+//@   modifies out, wfail
+
+// dry run: the report of each root goes through one bufio.Writer; the stage requires a validating grower (C09: dry run
+// rejects what the real run rejects because of names)
+//@ func gtree.colorizeSpreaderPipeline.spread
+//@   requires nn: cs != nil && cs.colorizeSpreaderSimple != nil && colorizeOK(cs.colorizeSpreaderSimple) && ctx != nil
+//@   carries roots: grownChan($g)
+//@   requires validating [C09,C07]: g != nil ==> g.enabledValidation
+//@   carries errc: errChan
+//@   carries result0: errChan
+//@   modifies out, wfail, counter.n
+//@ closure gtree.colorizeSpreaderPipeline.spread#1
+//@   requires nn: cs != nil && cs.colorizeSpreaderSimple != nil && colorizeOK(cs.colorizeSpreaderSimple) && ctx != nil
+//@   modifies out, wfail, counter.n
+//@ loop gtree.colorizeSpreaderPipeline.spread#1#1
+//@   invariant ok: colorizeOK(cs.colorizeSpreaderSimple) && bw != nil
+
+// encoded output: one encoder per run (C04), Encode once per root received
+//@ contract formattedSpreadPipelineSpec
+//@   requires nn: f != nil && f.encode != nil && f.formattedRoot != nil && ctx != nil
+//@   carries roots: grownChan($g)
+//@   carries errc: errChan
+//@   carries result0: errChan
+//@   modifies out, wfail, encTrace, encoders
+//@ applies formattedSpreadPipelineSpec to gtree.formattedSpreaderPipeline.spread[jsonNode], gtree.formattedSpreaderPipeline.spread[yamlNode], gtree.formattedSpreaderPipeline.spread[tomlNode]
+//@ contract formattedSpreadPipelineBody
+//@   requires nn: f != nil && f.encode != nil && f.formattedRoot != nil && ctx != nil
+//@   modifies out, wfail, encTrace, encoders
+//@   ensures once [C04]: encoders == old(encoders) + 1
+//@ applies formattedSpreadPipelineBody to gtree.formattedSpreaderPipeline.spread[jsonNode]#1, gtree.formattedSpreaderPipeline.spread[yamlNode]#1, gtree.formattedSpreaderPipeline.spread[tomlNode]#1
+//@ loop gtree.formattedSpreaderPipeline.spread#1#1
+//@   invariant once [C04]: encoders == old(encoders) + 1
+//@ field formattedSpreaderPipeline.encode follows encoderFactory
+//@ field formattedSpreaderPipeline.formattedRoot follows formattedRootFn
+//@ closure gtree.newJSONSpreaderPipeline#1
+//@   implements formattedRootFn jsonNode
+//@ closure gtree.newYAMLSpreaderPipeline#1
+//@   implements formattedRootFn yamlNode
+//@ closure gtree.newTOMLSpreaderPipeline#1
+//@   implements formattedRootFn tomlNode
+//@ closure gtree.newJSONSpreaderPipeline#2
+//@   implements encoderFactory
+//@ closure gtree.newYAMLSpreaderPipeline#2
+//@   implements encoderFactory
+//@ closure gtree.newTOMLSpreaderPipeline#2
+//@   implements encoderFactory
+// interface-level view (the dynamic type does not reveal the instance): a consequence of the three instance contracts
+//@ func gtree.formattedSpreaderPipeline.spread
+//@   assumed
+//@   carries roots: grownChan($g)
+//@   carries result0: errChan
+//@   modifies out, wfail, encTrace, encoders
+
+// ---- mkdir stage (pipeline_tree_mkdirer.go): every root it receives comes from a validating grower (C07)
+//@ func gtree.defaultMkdirerPipeline.mkdir
+//@   requires nn: dm != nil && dm.defaultMkdirerSimple != nil && dm.defaultMkdirerSimple.fileConsiderer != nil && ctx != nil
+//@   carries roots: grownChan($g)
+//@   requires validating [C07]: g != nil ==> g.enabledValidation
+//@   carries errc: errChan
+//@   carries result0: errChan
+//@   modifies fsOps, fsFailed
+//@ closure gtree.defaultMkdirerPipeline.mkdir#1
+//@   requires nn: dm != nil && dm.defaultMkdirerSimple != nil && dm.defaultMkdirerSimple.fileConsiderer != nil && ctx != nil
+//@   modifies fsOps, fsFailed
+//@ func gtree.defaultMkdirerPipeline.worker
+//@   requires nn: dm != nil && dm.defaultMkdirerSimple != nil && dm.defaultMkdirerSimple.fileConsiderer != nil && ctx != nil && wg != nil
+//@   carries roots: grownChan($g)
+//@   carries errc: errChan
+//@   modifies fsOps, fsFailed
+
+// ---- verify stage (pipeline_tree_verifier.go)
+//@ func gtree.defaultVerifierPipeline.verify
+//@   requires nn: dv != nil && dv.defaultVerifierSimple != nil && ctx != nil
+//@   carries roots: grownChan($g)
+//@   requires validating [C07,C08]: g != nil ==> g.enabledValidation
+//@   carries errc: errChan
+//@   carries result0: errChan
+//@   modifies maps
+//@ closure gtree.defaultVerifierPipeline.verify#1
+//@   requires nn: dv != nil && dv.defaultVerifierSimple != nil && ctx != nil
+//@   modifies maps
+//@ func gtree.defaultVerifierPipeline.worker
+//@   requires nn: dv != nil && dv.defaultVerifierSimple != nil && ctx != nil && wg != nil
+//@   carries roots: grownChan($g)
+//@   carries errc: errChan
+//@   modifies maps
+
+// ---- walk stage (pipeline_tree_walker.go): not under contract. After a callback error the worker goes on with the next
+// root, which the callback protocol of the simple mode (walkCallback: never called again after an error) forbids; C05
+// is stated without the massive option.
+//@ func gtree.defaultWalkerPipeline.walk
+//@   assumed
+//@   param callback follows walkCallback
+//@   carries roots: grownChan($g)
+//@   carries result0: errChan
+//@   modifies cbTrace, cbFailed, cbLastErr
+
+// ---- the tree (pipeline_tree.go)
+// pipelineTreeOK(t, cfg): t is the treePipeline that newTreePipeline builds for cfg.
+//@ pred pipelineTreeOK(t *treePipeline, cfg *config): t != nil && cfg != nil && cfg.ctx != nil && t.grower != nil && t.spreader != nil && t.mkdirer != nil && t.verifier != nil && t.walker != nil && (cfg.encode != encodeDefault ==> isType(t.grower, nopGrowerPipeline)) && (cfg.encode == encodeDefault ==> isType(t.grower, defaultGrowerPipeline) && as(t.grower, defaultGrowerPipeline).defaultGrowerSimple != nil && as(t.grower, defaultGrowerPipeline).defaultGrowerSimple.lastNodeFormat == cfg.lastNodeFormat && as(t.grower, defaultGrowerPipeline).defaultGrowerSimple.intermedialNodeFormat == cfg.intermedialNodeFormat && (cfg.dryrun ==> as(t.grower, defaultGrowerPipeline).defaultGrowerSimple.enabledValidation)) && (cfg.dryrun ==> isType(t.spreader, colorizeSpreaderPipeline) && as(t.spreader, colorizeSpreaderPipeline).colorizeSpreaderSimple != nil && colorizeOK(as(t.spreader, colorizeSpreaderPipeline).colorizeSpreaderSimple)) && (!cfg.dryrun && !(cfg.encode >= encodeJSON && cfg.encode <= encodeTOML) ==> isType(t.spreader, defaultSpreaderPipeline) && as(t.spreader, defaultSpreaderPipeline).defaultSpreaderSimple != nil) && (!cfg.dryrun && cfg.encode >= encodeJSON && cfg.encode <= encodeTOML ==> isType(t.spreader, formattedSpreaderPipeline)) && isType(t.mkdirer, defaultMkdirerPipeline) && as(t.mkdirer, defaultMkdirerPipeline).defaultMkdirerSimple != nil && as(t.mkdirer, defaultMkdirerPipeline).defaultMkdirerSimple.fileConsiderer != nil && isType(t.verifier, defaultVerifierPipeline) && as(t.verifier, defaultVerifierPipeline).defaultVerifierSimple != nil && isType(t.walker, defaultWalkerPipeline)
+
+//@ func gtree.newTreePipeline
+//@   requires nn: cfg != nil && cfg.ctx != nil
+//@   ensures pipeline [C07,C09,C12]: result != nil && isType(result, treePipeline) && fresh(result) && pipelineTreeOK(as(result, treePipeline), cfg)
+
+// handlePipelineErr waits (errgroup) for the error channels of all stages. Which error it returns is not modelled. Its
+// frame is empty: what the goroutines of a stage may modify is forgotten by the caller where the stage is started (and must
+// be within the caller's modifies clause), and the callers read none of it afterwards.
+//@ func gtree.treePipeline.handlePipelineErr
+//@   assumed
+//@   modifies nothing
